@@ -1101,3 +1101,31 @@ val num_probes : q list -> q list
 val q_lt : q -> q -> bool
 
 val q_eq : q -> q -> bool
+
+val key : char list -> char list * char list
+
+val member : char list -> jv -> (char list * char list) * jv
+
+val jbool : bool -> jv
+
+val jnum : oracle2 -> z -> jv
+
+val jstr : oracle2 -> char list -> jv
+
+val cst_e : oracle2 -> expr -> jv
+
+val z_opt_eqb : z option -> z -> bool
+
+val float_ok_b : oracle -> oracle2 -> z -> bool
+
+val power_ok_b : oracle -> oracle2 -> z -> bool
+
+val int_ok_b : z -> bool
+
+val dflt : z -> z -> bool
+
+val leaf_rt_b : oracle -> oracle2 -> expr -> bool
+
+val field_rt_b : oracle -> oracle2 -> expr -> bool
+
+val ki_b : oracle -> oracle2 -> expr -> bool
